@@ -50,6 +50,40 @@ class IndexWorld(QueryWorld):
         return super().call_method(ip, obj, name, args, kwargs, node)
 
 
+def interpreted_divisor(repo: Repo, cls):
+    """Divisor of the per-snapshot reader: interactions_per_snapshots(t) interpreted on the index {t+2: 4, ...}."""
+    from fractions import Fraction as F
+    from .ownership import container_types
+    rel = CLASSES[cls]
+    methods = repo.class_methods(rel, cls)
+    if "interactions_per_snapshots" not in methods:
+        raise AnalysisError("anchor vanished: %s.interactions_per_snapshots" % cls)
+    fn = methods["interactions_per_snapshots"]
+    kinds = container_types(repo, cls)
+    kind = sorted(kinds["snapshots"])[0] if kinds["snapshots"] else "dict"
+    shape = SHAPES[cls == "DynDiGraph"][0]
+    ot = OrderType([["t"]], [], 8)
+    answers = set()
+
+    def once(ch):
+        w = IndexWorld(cls, shape, ch, methods, {}, kind)
+        ip = Interp(w, ot, max_depth=10)
+        try:
+            return ip.call_function(fn, {"self": SelfV(), "t": T(2)}), None
+        except AbstractRaise as r:
+            return None, r
+    for ch, (val, r) in run_all_choices(once, max_runs=8):
+        got = to_py(val) if r is None else None
+        if isinstance(got, (int, float)) and not isinstance(got, bool) and got > 0:
+            answers.add(F(4) / F(got).limit_denominator(1000))
+        else:
+            return None, "interactions_per_snapshots(t) gives %r for an id whose stored counter is 4" % (got if r is None else r.exc,)
+    if len(answers) != 1:
+        return None, "interactions_per_snapshots(t) scales the stored counter inconsistently (%s)" % sorted(answers)
+    d = answers.pop()
+    return (int(d) if d.denominator == 1 else float(d)), None
+
+
 def check_index_readers(repo: Repo, rep: Report, cls, kind, divisor):
     rel = CLASSES[cls]
     methods = repo.class_methods(rel, cls)
